@@ -31,6 +31,8 @@ import (
 //	       <slot :Var="it"></slot></div> - the same slot content is used once per item (twice per
 //	       item with Twice), each use with that item as slot prop, so the expected outline is that
 //	       of a loop over List whose body is kids
+//	vloop: <div data-m=M v-for="(vi, Var) in List">tM-{{ vi }} kids</div> over a list of plain
+//	       values (VLists; nil allowed): the bare loop variable Var shadows the global of that name
 //	Pre / Once on a later chain member: the member also carries v-pre / v-once
 //
 // An elif / else node that does not continue a chain is an orphan.
@@ -56,6 +58,95 @@ type Case struct {
 	Vars  map[string]vals.V              `json:"vars,omitempty"`
 	Lists map[string][]map[string]vals.V `json:"lists,omitempty"` // loop lists: items are maps with an "id"
 	Entry string                         `json:"entry,omitempty"` // "" = RenderString, "file" = NewFS().Load().Render
+	// Form is how the global condition variables are written and stored: "" plain names (ca),
+	// "hyphen" (g-ca), "dotidx" (gv.0), "bracket" (gv[0]), "nested" (gm.in.ca), "tag" (struct field
+	// by JSON tag, gs.ca), "goname" (struct field by Go name, gs.Ca).
+	Form string `json:"form,omitempty"`
+	// Items is the Go type of loop items: "" map[string]any, "struct" condStruct, "ptr" *condStruct
+	// (fields read by JSON tag: it1.ca).
+	Items string `json:"items,omitempty"`
+	// VLists are the lists of vloop nodes: plain values (nil allowed) bound to a bare loop variable.
+	VLists map[string][]vals.V `json:"vlists,omitempty"`
+}
+
+// condStruct holds condition variables as struct fields (globals under Form tag / goname, loop
+// items under Items struct / ptr).
+type condStruct struct {
+	ID  string `json:"id"`
+	Inc any    `json:"inc"`
+	Ca  any    `json:"ca"`
+	Cb  any    `json:"cb"`
+	Cc  any    `json:"cc"`
+	Cd  any    `json:"cd"`
+	Ce  any    `json:"ce"`
+	Cf  any    `json:"cf"`
+	Cg  any    `json:"cg"`
+	Ch  any    `json:"ch"`
+}
+
+func (cs *condStruct) set(name string, v any) {
+	switch name {
+	case "id":
+		cs.ID, _ = v.(string)
+	case "inc":
+		cs.Inc = v
+	case "ca":
+		cs.Ca = v
+	case "cb":
+		cs.Cb = v
+	case "cc":
+		cs.Cc = v
+	case "cd":
+		cs.Cd = v
+	case "ce":
+		cs.Ce = v
+	case "cf":
+		cs.Cf = v
+	case "cg":
+		cs.Cg = v
+	case "ch":
+		cs.Ch = v
+	default:
+		panic("c03: condStruct has no field " + name)
+	}
+}
+
+var globalNames = []string{"ca", "cb", "cc", "cd", "ce", "cf", "cg", "ch"}
+
+func globalIndex(name string) int {
+	for i, n := range globalNames {
+		if n == name {
+			return i
+		}
+	}
+	return -1
+}
+
+// condText writes a logical condition ([!]name, [!]loopvar.field, [!]p<k>) in the case's form.
+func condText(cond, form string) string {
+	neg := ""
+	if strings.HasPrefix(cond, "!") {
+		neg, cond = "!", cond[1:]
+	}
+	i := globalIndex(cond)
+	if i < 0 || form == "" {
+		return neg + cond
+	}
+	switch form {
+	case "hyphen":
+		return neg + "g-" + cond
+	case "dotidx":
+		return fmt.Sprintf("%sgv.%d", neg, i)
+	case "bracket":
+		return fmt.Sprintf("%sgv[%d]", neg, i)
+	case "nested":
+		return neg + "gm.in." + cond
+	case "tag":
+		return neg + "gs." + cond
+	case "goname":
+		return neg + "gs." + strings.ToUpper(cond[:1]) + cond[1:]
+	}
+	panic("c03: unknown form " + form)
 }
 
 // Out is one marker of the predicted / observed outline.
@@ -162,6 +253,10 @@ type stats struct {
 	sibBefore   bool
 	sibAfter    bool
 	loopEmpty   bool
+	shadowed    bool // a condition read a vloop variable
+	shadowOpp   bool // ... that shadows a global of the opposite truthiness
+	shadowNil   bool // ... being nil while the shadowed global is truthy
+	vloops      int
 	slotted     int  // slot uses evaluated
 	slotChain   bool // a chain evaluated inside slot content
 	slotTwice   bool
@@ -201,6 +296,20 @@ func (m *model) truthy(cond string, sc scope) bool {
 	if i := strings.IndexByte(cond, '.'); i >= 0 {
 		if item, ok := sc[cond[:i]]; ok {
 			v, found = item[cond[i+1:]]
+		}
+	} else if b, ok := sc[""][cond]; ok {
+		// bound by an enclosing vloop: the innermost binding wins over the global, nil included
+		v, found = b, true
+		m.st.shadowed = true
+		if g, ok := m.c.Vars[cond]; ok {
+			gt, _ := g.Truthy()
+			bt, _ := b.Truthy()
+			if gt != bt {
+				m.st.shadowOpp = true
+			}
+			if gt && b.K == "nil" {
+				m.st.shadowNil = true
+			}
 		}
 	} else {
 		v, found = m.c.Vars[cond]
@@ -257,6 +366,25 @@ func (m *model) eval(nodes []Node, sc scope, depth int, inLoop, inChain bool) []
 				text = "t" + n.M + "+attr+k"
 			}
 			out = append(out, Out{ID: n.M, Text: text})
+			prevChainEnd = false
+		case "vloop":
+			m.st.vloops++
+			for vi, val := range m.c.VLists[n.List] {
+				sc2 := scope{}
+				for k, v := range sc {
+					sc2[k] = v
+				}
+				bare := map[string]vals.V{}
+				for k, v := range sc[""] {
+					bare[k] = v
+				}
+				if val.K == "missing" {
+					val = vals.Nil()
+				}
+				bare[n.Var] = val
+				sc2[""] = bare
+				out = append(out, Out{ID: n.M, Text: fmt.Sprintf("t%s-%d", n.M, vi), Kids: m.eval(n.Kids, sc2, depth+1, true, inChain)})
+			}
 			prevChainEnd = false
 		case "slotted":
 			for _, it := range m.c.Lists[n.List] {
@@ -432,7 +560,7 @@ func sepText(s string) string {
 	return ""
 }
 
-func (n *Node) directive() string {
+func (n *Node) directive(form string) string {
 	extra := ""
 	if n.Pre {
 		extra += ` v-pre`
@@ -442,16 +570,16 @@ func (n *Node) directive() string {
 	}
 	switch n.Kind {
 	case "if":
-		return ` v-if="` + n.Cond + `"` + extra
+		return ` v-if="` + condText(n.Cond, form) + `"` + extra
 	case "elif":
-		return ` v-else-if="` + n.Cond + `"` + extra
+		return ` v-else-if="` + condText(n.Cond, form) + `"` + extra
 	case "else":
 		return ` v-else` + extra
 	}
 	return ""
 }
 
-func writeNodes(sb *strings.Builder, nodes []Node) {
+func writeNodes(sb *strings.Builder, nodes []Node, form string) {
 	for i := range nodes {
 		n := &nodes[i]
 		sb.WriteString(sepText(n.Sep))
@@ -468,29 +596,34 @@ func writeNodes(sb *strings.Builder, nodes []Node) {
 				comp = "slottwice.vuego"
 			}
 			fmt.Fprintf(sb, `<template include="%s" mk="%s" :items="%s"><template v-slot="{ %s }">`, comp, n.M, n.List, n.Var)
-			writeNodes(sb, n.Kids)
+			writeNodes(sb, n.Kids, form)
 			sb.WriteString(`</template></template>`)
 		case n.Kind == "probe":
-			fmt.Fprintf(sb, `<p data-m="%s" v-show="%s" :data-x="%s" :class="{k: %s}">t%s</p>`, n.M, n.Cond, n.Cond, n.Cond, n.M)
+			ct := condText(n.Cond, form)
+			fmt.Fprintf(sb, `<p data-m="%s" v-show="%s" :data-x="%s" :class="{k: %s}">t%s</p>`, n.M, ct, ct, ct, n.M)
+		case n.Kind == "vloop":
+			fmt.Fprintf(sb, `<div data-m="%s" v-for="(vi, %s) in %s">t%s-{{ vi }}`, n.M, n.Var, n.List, n.M)
+			writeNodes(sb, n.Kids, form)
+			sb.WriteString(`</div>`)
 		case n.Kind == "loop":
 			fmt.Fprintf(sb, `<div data-m="%s" v-for="%s in %s">t%s-{{ %s.id }}`, n.M, n.Var, n.List, n.M, n.Var)
-			writeNodes(sb, n.Kids)
+			writeNodes(sb, n.Kids, form)
 			sb.WriteString(`</div>`)
 		case n.Tmpl:
-			sb.WriteString(`<template` + n.directive() + `>`)
-			writeNodes(sb, n.Kids)
+			sb.WriteString(`<template` + n.directive(form) + `>`)
+			writeNodes(sb, n.Kids, form)
 			sb.WriteString(`</template>`)
 		case n.For > 0:
-			fmt.Fprintf(sb, `<div data-m="%s"%s v-for="x in l%d">t%s-{{ x }}`, n.M, n.directive(), n.For, n.M)
-			writeNodes(sb, n.Kids)
+			fmt.Fprintf(sb, `<div data-m="%s"%s v-for="x in l%d">t%s-{{ x }}`, n.M, n.directive(form), n.For, n.M)
+			writeNodes(sb, n.Kids, form)
 			sb.WriteString(`</div>`)
 		default:
 			tag := "p"
 			if len(n.Kids) > 0 {
 				tag = "div"
 			}
-			fmt.Fprintf(sb, `<%s data-m="%s"%s>t%s`, tag, n.M, n.directive(), n.M)
-			writeNodes(sb, n.Kids)
+			fmt.Fprintf(sb, `<%s data-m="%s"%s>t%s`, tag, n.M, n.directive(form), n.M)
+			writeNodes(sb, n.Kids, form)
 			sb.WriteString(`</` + tag + `>`)
 		}
 	}
@@ -518,7 +651,7 @@ func hasInclude(nodes []Node) bool {
 
 func (c *Case) source() string {
 	var sb strings.Builder
-	writeNodes(&sb, c.Nodes)
+	writeNodes(&sb, c.Nodes, c.Form)
 	return sb.String()
 }
 
@@ -538,23 +671,87 @@ func maxFor(nodes []Node) int {
 // data builds the typed Go data of a case.
 func (c *Case) data() map[string]any {
 	d := map[string]any{}
-	for k, v := range c.Vars {
+	goVal := func(v vals.V) any {
 		if v.K == "missing" {
-			continue
+			return nil
 		}
-		d[k] = v.Go()
+		return v.Go()
+	}
+	// globals, stored the way the case's form reads them
+	switch c.Form {
+	case "":
+		for k, v := range c.Vars {
+			if v.K != "missing" {
+				d[k] = v.Go()
+			}
+		}
+	case "hyphen":
+		for k, v := range c.Vars {
+			if v.K != "missing" {
+				d["g-"+k] = v.Go()
+			}
+		}
+	case "dotidx", "bracket":
+		gv := make([]any, len(globalNames))
+		for k, v := range c.Vars {
+			gv[globalIndex(k)] = goVal(v)
+		}
+		d["gv"] = gv
+	case "nested":
+		in := map[string]any{}
+		for k, v := range c.Vars {
+			if v.K != "missing" {
+				in[k] = v.Go()
+			}
+		}
+		d["gm"] = map[string]any{"in": in}
+	case "tag", "goname":
+		var gs condStruct
+		for k, v := range c.Vars {
+			gs.set(k, goVal(v))
+		}
+		d["gs"] = gs
+	default:
+		panic("c03: unknown form " + c.Form)
 	}
 	for name, items := range c.Lists {
-		l := make([]any, 0, len(items))
-		for _, it := range items {
-			m := map[string]any{}
-			for k, v := range it {
-				if v.K == "missing" {
-					continue
+		switch c.Items {
+		case "struct":
+			l := make([]condStruct, len(items))
+			for i, it := range items {
+				for k, v := range it {
+					l[i].set(k, goVal(v))
 				}
-				m[k] = v.Go()
 			}
-			l = append(l, m)
+			d[name] = l
+		case "ptr":
+			l := make([]*condStruct, len(items))
+			for i, it := range items {
+				l[i] = &condStruct{}
+				for k, v := range it {
+					l[i].set(k, goVal(v))
+				}
+			}
+			d[name] = l
+		default:
+			l := make([]any, 0, len(items))
+			for _, it := range items {
+				m := map[string]any{}
+				for k, v := range it {
+					if v.K == "missing" {
+						continue
+					}
+					m[k] = v.Go()
+				}
+				l = append(l, m)
+			}
+			d[name] = l
+		}
+	}
+	for name, items := range c.VLists {
+		l := make([]any, len(items))
+		for i, v := range items {
+			l[i] = goVal(v)
 		}
 		d[name] = l
 	}
